@@ -789,11 +789,13 @@ func c17GenCase() *rapid.Generator[*c17Case] {
 		}
 		// documents
 		g.docs = append(g.docs, c17SimpleDocs...)
-		if exTok {
-			g.excluded[c17FindTok] = 1
-		} else if rapid.Bool().Draw(rt, "path-like-ids") {
-			g.docs = append([]string{}, c17PathDocs...)
-			g.docs = append(g.docs, "doc_1")
+		if rapid.Bool().Draw(rt, "path-like-ids") {
+			if exTok {
+				g.excluded[c17FindTok] = 1
+			} else {
+				g.docs = append([]string{}, c17PathDocs...)
+				g.docs = append(g.docs, "doc_1")
+			}
 		}
 
 		m, _ := c17NewModel(c)
